@@ -17,10 +17,11 @@ def sh(c, **kw):
 
 
 patch = os.path.join(wt, "_seed", "patch.diff")
+# the sub-agent's patch.diff is the source of truth (git stash is shared between worktrees, so the tree itself may hold a foreign edit)
+sh("git checkout -- .")
+r0 = sh("git apply _seed/patch.diff")
+assert r0.returncode == 0, "cannot apply patch: " + r0.stderr
 cur = sh("git diff").stdout
-if cur.strip() == "":
-    assert sh("git apply _seed/patch.diff").returncode == 0, "cannot apply patch"
-    cur = sh("git diff").stdout
 open("/tmp/_cur.diff", "w").write(cur)
 log = {}
 r = sh("cargo test --workspace --no-fail-fast --offline 2>&1 | grep -E '^test result|FAILED|error' ")
